@@ -446,8 +446,9 @@ pub fn cmd_sched(m: &HashMap<String, String>) -> i32 {
         .set("interleaved_runs", J::Int(nontrivial_runs as i64))
         .set("samples", J::Arr(samples))
         .set("instrumented_build", J::Bool(crate::mc::instrumented()))
-        .set("sync_functions_in_library", J::u(crate::mc::sync_functions().0))
-        .set("sync_function_names", J::Arr(crate::mc::sync_functions().1.iter().map(|n| J::s(n)).collect()))
+        .set("sync_functions_in_library", J::u(crate::mc::sync_functions().1))
+        .set("sync_functions_on_library_types", J::u(crate::mc::sync_functions().0))
+        .set("sync_function_names", J::Arr(crate::mc::sync_functions().2.iter().map(|n| J::s(n)).collect()))
         .set("setup_s", J::Num(setup_s));
 
     let mut code = 0;
